@@ -51,7 +51,14 @@ pub enum Op {
     Rebrowse { ty: usize },
     StopStart { ty: usize },
     /// scripted responder answering the daemon's own queries about the world
-    Responder { on: bool, delay_ms: u64 },
+    Responder {
+        on: bool,
+        delay_ms: u64,
+        /// 0 = answers everything, 1 = never answers address questions, 2 = its first answer to an
+        /// address question is lost, 3 = answers nothing about instances (SRV/TXT) either
+        #[serde(default)]
+        mute: u8,
+    },
 }
 
 #[derive(Clone, Debug, Serialize, Deserialize)]
@@ -92,7 +99,12 @@ impl InstState {
 }
 
 pub fn host_name(h: usize) -> Name {
-    Name::from_escaped(&format!("bhost{}.local.", h % NHOSTS))
+    // every other host has upper-case letters in its name
+    if h % NHOSTS % 2 == 1 {
+        Name::from_escaped(&format!("BHost{}.Local.", h % NHOSTS))
+    } else {
+        Name::from_escaped(&format!("bhost{}.local.", h % NHOSTS))
+    }
 }
 
 pub fn host_addr(h: usize, a: u8) -> IpAddr {
@@ -252,6 +264,9 @@ impl RefCache {
                     e.shortened = false;
                     e.pos = pos;
                 }
+                // a goodbye (or a record with one second to live) for a record that is not cached
+                // withdraws nothing and is not kept
+                None if r.ttl <= 1 => {}
                 None => self.entries.push(CEntry {
                     name: r.name.clone(),
                     rtype: r.rtype,
@@ -428,12 +443,14 @@ pub fn execute(case: &Case, seed: u64) -> Result<Run, String> {
         ..Default::default()
     };
     let mut responder: Option<u64> = None;
+    let mut responder_mute: u8 = 0;
+    let mut addr_answers_lost: u32 = 0;
     let mut steps_forced = 0u64;
     let mut fed = 0usize;
 
     // runs to `t`, letting the responder answer and keeping the forced wake-ups up to date
     #[allow(clippy::too_many_arguments)]
-    fn run_to(w: &mut World, di: usize, t: u64, insts: &[InstState], responder: Option<u64>, upper: &mut RefCache, browsed: &[Name], case: &Case, steps_forced: &mut u64, fed: &mut usize) {
+    fn run_to(w: &mut World, di: usize, t: u64, insts: &[InstState], responder: Option<u64>, mute: (u8, &mut u32), upper: &mut RefCache, browsed: &[Name], case: &Case, steps_forced: &mut u64, fed: &mut usize) {
         let ifs = &case.ifs;
         loop {
             // what was received so far goes into the upper-bound cache
@@ -464,8 +481,22 @@ pub fn execute(case: &Case, seed: u64) -> Result<Run, String> {
                     if ix != if_index(0) || tx.v4() != ifs[0].v4 {
                         continue;
                     }
-                    if let Some(recs) = respond(insts, m) {
-                        out.push((now + delay, ix, src_for(ifs, 0, 200), crate::sim::peer::response(recs, vec![])));
+                    if let Some(mut recs) = respond(insts, m) {
+                        let is_addr = |r: &Record| matches!(r.rdata, RData::A(_) | RData::Aaaa(_));
+                        match mute.0 {
+                            1 => recs.retain(|r| !is_addr(r)),
+                            2 => {
+                                if recs.iter().any(is_addr) && *mute.1 == 0 {
+                                    *mute.1 += 1;
+                                    recs.retain(|r| !is_addr(r));
+                                }
+                            }
+                            3 => recs.retain(|r| r.rtype == T_PTR),
+                            _ => {}
+                        }
+                        if !recs.is_empty() {
+                            out.push((now + delay, ix, src_for(ifs, 0, 200), crate::sim::peer::response(recs, vec![])));
+                        }
                     }
                 }
                 out
@@ -483,7 +514,7 @@ pub fn execute(case: &Case, seed: u64) -> Result<Run, String> {
 
     for op in &case.ops {
         let now = w.now;
-        run_to(&mut w, di, now, &insts, responder, &mut upper, &browsed, case, &mut steps_forced, &mut fed);
+        run_to(&mut w, di, now, &insts, responder, (responder_mute, &mut addr_answers_lost), &mut upper, &browsed, case, &mut steps_forced, &mut fed);
         let now = w.now;
         w.daemons[di].set_now(now);
         match op {
@@ -532,7 +563,7 @@ pub fn execute(case: &Case, seed: u64) -> Result<Run, String> {
             }
             Op::Advance { ms } => {
                 let t = w.now + *ms;
-                run_to(&mut w, di, t, &insts, responder, &mut upper, &browsed, case, &mut steps_forced, &mut fed);
+                run_to(&mut w, di, t, &insts, responder, (responder_mute, &mut addr_answers_lost), &mut upper, &browsed, case, &mut steps_forced, &mut fed);
             }
             Op::Verify { inst, timeout_ms } => {
                 if insts.is_empty() {
@@ -555,18 +586,20 @@ pub fn execute(case: &Case, seed: u64) -> Result<Run, String> {
                     let _ = w.daemons[di].browse(TYPES[*ty % 2]);
                 }
             }
-            Op::Responder { on, delay_ms } => {
+            Op::Responder { on, delay_ms, mute } => {
                 responder = if *on { Some(*delay_ms) } else { None };
+                responder_mute = *mute;
+                addr_answers_lost = 0;
             }
         }
         let now = w.now;
-        run_to(&mut w, di, now, &insts, responder, &mut upper, &browsed, case, &mut steps_forced, &mut fed);
+        run_to(&mut w, di, now, &insts, responder, (responder_mute, &mut addr_answers_lost), &mut upper, &browsed, case, &mut steps_forced, &mut fed);
         if w.budget_exhausted {
             break;
         }
     }
     let t = w.now + case.tail_ms;
-    run_to(&mut w, di, t, &insts, responder, &mut upper, &browsed, case, &mut steps_forced, &mut fed);
+    run_to(&mut w, di, t, &insts, responder, (responder_mute, &mut addr_answers_lost), &mut upper, &browsed, case, &mut steps_forced, &mut fed);
     Ok(Run {
         world: w,
         insts_final: insts,
